@@ -49,6 +49,7 @@ def run(ctx: Ctx):
     rep.flush()
     check_defs_flow(ctx)
     check_subst(ctx, bf)
+    ctx.section(check_rename_injective, ctx, bf)
     check_call_site(ctx)
     check_inline_idiom(ctx, bf)
     check_subs_keywords(ctx)
@@ -283,3 +284,67 @@ def check_subs_keywords(ctx: Ctx):
                 bad = [k.arg for k in c.keywords if k.arg not in ("simultaneous",)]
                 ctx.check(not bad, "RW-SUBST", fi, f"keywords of {norm(c)[:50]}", "", f"subs() is given the keyword(s) {bad}, which sympy silently ignores (did you mean simultaneous=True?)", c)
     ctx.ok("RW-SUBST", None, "no subs() call carries an unknown keyword", f"{n} keyword-carrying subs() calls in the tree", construct="qlasskit")
+
+
+def check_rename_injective(ctx: Ctx, bf):
+    """RW-RENAME: the callee's argument names, argument bits, defined symbols and free symbols are all renamed by the
+    same injective naming function `<callee name>_<original>`.  A naming expression that depends on the original
+    name in any other way (a condition, a slice, a lookup) can send two names of the callee to one symbol."""
+    pfx = f"{bf.params[1]}[0]"
+    names = []  # (naming expression, the variable that stands for the original name, node)
+    for fn_ in [bf] + list(bf.nested.values()):
+        for c in q.calls(fn_.node, nested=False):
+            d = (dotted(c.func) or "").split(".")[-1]
+            if d == "Symbol" and c.args:
+                names.append((c.args[0], c))
+            elif d == "Arg" and c.args:
+                names.append((c.args[0], c))
+                if len(c.args) >= 3:
+                    bv = q.strip_wrappers(c.args[2])
+                    if isinstance(bv, ast.Call) and isinstance(bv.func, ast.Name) and bv.func.id == "map" and bv.args and isinstance(bv.args[0], ast.Lambda):
+                        names.append((bv.args[0].body, bv))
+                    elif isinstance(bv, ast.Call) and isinstance(bv.func, ast.Name) and bv.func.id == "map" and bv.args and isinstance(bv.args[0], ast.Name) and _nested_def(bf, bv.args[0].id) is not None:
+                        from ..normalize import _expr_of_body
+
+                        ex = _expr_of_body(_nested_def(bf, bv.args[0].id).body)
+                        if ex is None:
+                            ctx.undecided(bf.short, f"naming function `{bv.args[0].id}` is not a single expression")
+                        else:
+                            names.append((ex, bv))
+                    elif isinstance(bv, (ast.ListComp, ast.GeneratorExp)):
+                        names.append((bv.elt, bv))
+                    else:
+                        ctx.undecided(bf.short, f"renamed bit names `{norm(bv)[:60]}` are not built by a map/comprehension over the original bits")
+    if len(names) < 4:
+        ctx.undecided(bf.short, f"only {len(names)} naming expressions found in bind_function (argument name, argument bits, defined symbol, free symbols)")
+        return
+    resolved = []
+    for e, node in names:
+        if isinstance(e, ast.Call) and isinstance(e.func, ast.Name) and _nested_def(bf, e.func.id) is not None:
+            from ..normalize import _expr_of_body
+
+            ex = _expr_of_body(_nested_def(bf, e.func.id).body)
+            if ex is not None:
+                e = ex
+        resolved.append((e, node))
+    for e, node in resolved:
+        t = norm(e).replace(" ", "").replace('"', "'")
+        good = False
+        if isinstance(e, ast.JoinedStr) and len(e.values) == 3 and isinstance(e.values[0], ast.FormattedValue) and isinstance(e.values[1], ast.Constant) and isinstance(e.values[2], ast.FormattedValue):
+            good = norm(e.values[0].value) == pfx and isinstance(e.values[1].value, str) and len(e.values[1].value) >= 1 and e.values[2].conversion == -1 and e.values[0].conversion == -1
+        elif isinstance(e, ast.BinOp) and isinstance(e.op, ast.Add):
+            good = pfx in norm(e.left) and not any(isinstance(x, (ast.IfExp, ast.Subscript)) and x is not e.left for x in ast.walk(e.right))
+        cond = any(isinstance(x, (ast.IfExp,)) for x in ast.walk(e)) or any(isinstance(x, ast.Call) and isinstance(x.func, ast.Attribute) and x.func.attr in ("startswith", "endswith", "replace", "removeprefix", "lstrip", "strip") for x in ast.walk(e))
+        if good:
+            ctx.ok("RW-RENAME", bf, f"`{t[:50]}` = <callee>_<original>", "injective", node)
+        elif cond:
+            ctx.fail("RW-RENAME", bf, "callee symbols are renamed by one injective naming function", f"the new name is `{norm(e)[:110]}`: it depends on the shape of the original name, so two different names of the callee (x and <callee>_x) can be sent to the same symbol and the callee's formal and local bits collapse", node)
+        else:
+            ctx.undecided(bf.short, f"naming expression `{norm(e)[:80]}` is not `<callee name>_<original name>`")
+
+
+def _nested_def(fi, name: str):
+    for n in ast.walk(fi.node):
+        if isinstance(n, (ast.FunctionDef,)) and n.name == name and n is not fi.node:
+            return n
+    return None
